@@ -138,7 +138,30 @@ impl Prop for C05 {
                 e.kids.push(crate::dom::Node::Elem(cur));
                 cur = e;
             }
-            vec![crate::dom::Doc::plain(cur)]
+            if rng.pct(35) {
+                // the same long chain of *distinct* names below two different parents: every struct name occurs twice
+                // with a long identical ancestry, which is the expensive case for telling struct names apart
+                let l = rng.range(20, 70);
+                let chain = |leaf_text: &str| {
+                    let mut cur = crate::dom::Elem::new("leaf");
+                    cur.kids.push(crate::dom::Node::Text(leaf_text.into()));
+                    for i in (0..l).rev() {
+                        let mut e = crate::dom::Elem::new(&format!("c{i}"));
+                        e.kids.push(crate::dom::Node::Elem(cur));
+                        cur = e;
+                    }
+                    cur
+                };
+                let mut root = crate::dom::Elem::new("r");
+                for pn in ["p", "q", "s"].iter().take(rng.range(2, 3)) {
+                    let mut p = crate::dom::Elem::new(pn);
+                    p.kids.push(crate::dom::Node::Elem(chain("x")));
+                    root.kids.push(crate::dom::Node::Elem(p));
+                }
+                vec![crate::dom::Doc::plain(root)]
+            } else {
+                vec![crate::dom::Doc::plain(cur)]
+            }
         } else if rng.pct(2) {
             // very wide position: dozens of struct-producing children under one parent (anything that renders or
             // collects them out of order, e.g. on worker threads, shows here)
@@ -148,6 +171,33 @@ impl Prop for C05 {
             (0..k).map(|_| gen_doc(&mut rng, &cfg, &sk)).collect()
         };
         let mut docs = docs;
+        if !deep && rng.pct(3) {
+            // namespace aliases: two to four prefixes bound to one or two namespace names, used on the same few local
+            // names under one parent (whoever resolves prefixes has to pick "the" prefix of a namespace somehow)
+            let prefixes = ["p", "q", "r", "s"];
+            let np = rng.range(2, 4);
+            let uris = ["urn:a", "urn:b"];
+            let locals = ["item", "name", "id"];
+            let nd = rng.range(1, 3);
+            docs = (0..nd)
+                .map(|_| {
+                    let mut root = crate::dom::Elem::new("r");
+                    for pf in prefixes.iter().take(np) {
+                        let uri = if rng.pct(75) { uris[0] } else { uris[1] };
+                        root.attrs.push(crate::dom::Attr { name: format!("xmlns:{pf}"), value: uri.to_string(), quote: b'"' });
+                    }
+                    for _ in 0..rng.range(2, 7) {
+                        let mut e = crate::dom::Elem::new(&format!("{}:{}", prefixes[rng.below(np)], rng.pick(&locals)));
+                        e.selfclose = rng.pct(50);
+                        if rng.pct(40) {
+                            e.kids.push(crate::dom::Node::Elem(crate::dom::Elem::new(&format!("{}:{}", prefixes[rng.below(np)], rng.pick(&locals)))));
+                        }
+                        root.kids.push(crate::dom::Node::Elem(e));
+                    }
+                    crate::dom::Doc::plain(root)
+                })
+                .collect();
+        }
         if !deep && rng.pct(8) {
             // a stream that ends early, at a token boundary: the reader reports a plain end of input
             let i = rng.below(docs.len());
